@@ -181,7 +181,34 @@ def binop(op, l, r):
             return l
     if op == "/" and r.op == "const" and type(r.a[0]) is float and r.a[0] == 1.0:
         return l
+    if op == "-":
+        # a[:, np.newaxis] - b[np.newaxis, :]  (or - b for a 1-d b) is the outer difference np.subtract.outer(a, b)
+        ca, cb = _column_of(l), _row_of(r)
+        if ca is not None and cb is not None:
+            return call(ext("np.subtract.outer"), (ca, cb))
     return mk("bin", op, l, r)
+
+
+def _is_newaxis(t):
+    return (t.op == "const" and t.a[0] is None) or (t.op == "ext" and t.a[0] == "np.newaxis")
+
+
+def _is_full_slice(t):
+    return t.op == "slice" and all(x.op == "const" and x.a[0] is None for x in t.a)
+
+
+def _column_of(t):
+    """x when t is x[:, np.newaxis]"""
+    if t.op == "sub" and t.a[1].op == "tuple" and len(t.a[1].a) == 2 and _is_full_slice(t.a[1].a[0]) and _is_newaxis(t.a[1].a[1]):
+        return t.a[0]
+    return None
+
+
+def _row_of(t):
+    """x when t is x[np.newaxis, :]"""
+    if t.op == "sub" and t.a[1].op == "tuple" and len(t.a[1].a) == 2 and _is_newaxis(t.a[1].a[0]) and _is_full_slice(t.a[1].a[1]):
+        return t.a[0]
+    return None
 
 
 def unop(op, x):
@@ -216,6 +243,10 @@ def boolop(op, items):
 def ite(c, a, b):
     if a is b:
         return a
+    # `x if not c else y` is `y if c else x`
+    while c.op == "un" and c.a[0] == "not":
+        c = c.a[1]
+        a, b = b, a
     return mk("ite", c, a, b)
 
 
